@@ -138,3 +138,240 @@ theorem C11_width (pfx : Str) (tokens : List Str) (p : Params) (out : Str)
 example : pyfillLines "from m import ".toList ["aaa".toList, "bbb".toList, "ccc".toList]
       ⟨some 24, .bool false, 1, .never, 4, true, false, false⟩ =
     [("from m import (aaa, bbb,".toList, 2), ("               ccc)".toList, 1)] := by decide
+
+/-! ## T2  round trip: parsing the formatted block gives back the statements -/
+
+theorem bind_eq_ok {ε α β} (x : Except ε α) (f : α → Except ε β) (b : β) :
+    (x >>= f) = .ok b ↔ ∃ a, x = .ok a ∧ f a = .ok b := by
+  cases x with
+  | error e => simp [bind, Except.bind]
+  | ok a => simp [bind, Except.bind]
+
+inductive Forall2 {α β} (R : α → β → Prop) : List α → List β → Prop
+  | nil : Forall2 R [] []
+  | cons {a b as bs} : R a b → Forall2 R as bs → Forall2 R (a :: as) (b :: bs)
+
+theorem mapM_ok_forall₂ {ε α β} (f : α → Except ε β) (l : List α) (ts : List β)
+    (h : l.mapM f = .ok ts) : Forall2 (fun a t => f a = .ok t) l ts := by
+  induction l generalizing ts with
+  | nil =>
+    simp [List.mapM_nil, pure, Except.pure] at h
+    subst h; exact .nil
+  | cons a as ih =>
+    rw [List.mapM_cons] at h
+    obtain ⟨b, hb, h⟩ := (bind_eq_ok _ _ _).mp h
+    obtain ⟨bs, hbs, h⟩ := (bind_eq_ok _ _ _).mp h
+    simp [pure, Except.pure] at h
+    subst h
+    exact .cons hb (ih bs hbs)
+
+/-- column and `from` spacing a statement is printed with (`pp` of `ImportSet.pretty_print`) -/
+def stArgs (p : Params) (col : Option Nat) (st : Stmt) : Option Nat × Nat :=
+  if doAlign p st then (col, max 1 p.fromSpaces) else (none, 1)
+
+/-- the statements a printed statement reads back as (itself, except that the repaired tree writes an
+    overlong plain `import a, a as b` as one statement per alias) -/
+def readBack (p : Params) (col : Option Nat) (st : Stmt) : List Stmt :=
+  emitted st p (stArgs p col st).1 (stArgs p col st).2
+
+theorem lex_nil_bol : lex 0 true [] = some [] := by
+  conv => lhs; rw [lex.eq_def]
+  simp
+
+theorem lex_block (stmts : List Stmt) (p : Params) (col : Option Nat) (texts : List Str)
+    (hok : ∀ st ∈ stmts, StmtTxtOK st)
+    (h : Forall2 (fun st t => st.pretty p (stArgs p col st).1 (stArgs p col st).2 = .ok t) stmts texts) :
+    lex 0 true texts.flatten = some ((stmts.map fun st =>
+      ((readBack p col st).map fun s =>
+        stmtToks s (parenOf st p (stArgs p col st).1 (stArgs p col st).2) ++ [Tok.newline]).flatten).flatten) := by
+  induction h with
+  | nil => exact lex_nil_bol
+  | @cons st t sts ts hst _ ih =>
+    rw [List.flatten_cons, lex_stmt_all st p _ _ t (hok st (by simp)) hst true,
+      ih (fun x hx => hok x (List.mem_cons_of_mem _ hx))]
+    simp [readBack]
+
+theorem validStmt_txtOK (st : Stmt) (h : validStmt st = true) : StmtTxtOK st := by
+  obtain ⟨fromname, aliases⟩ := st
+  simp only [validStmt, Bool.and_eq_true, decide_eq_true_eq] at h
+  obtain ⟨hne, h⟩ := h
+  refine ⟨hne, ?_, ?_⟩
+  · intro m hm
+    simp only at hm
+    subst hm
+    simp only [Bool.and_eq_true] at h
+    exact isFromMod_word m h.1
+  · intro a ha
+    cases fromname with
+    | none =>
+      simp only [List.all_eq_true] at h
+      exact validAlias_txtOK true a (h a ha)
+    | some m =>
+      simp only [Bool.and_eq_true, Bool.or_eq_true, decide_eq_true_eq, List.all_eq_true] at h
+      rcases h.2 with h2 | h2
+      · simp only at ha
+        rw [h2] at ha
+        simp at ha
+        subst ha
+        exact ⟨Or.inl rfl, by intro n hn; cases hn⟩
+      · exact validAlias_txtOK false a (h2 a ha)
+
+theorem nameTok_ne_newline (n : Str) : nameTok n ≠ .newline := by
+  unfold nameTok; split <;> simp
+
+theorem aliasToks_no_newline (a : Alias) : Tok.newline ∉ aliasToks a := by
+  obtain ⟨n, m⟩ := a
+  have := nameTok_ne_newline n
+  cases m <;> simp [aliasToks, Ne.symm this]
+
+theorem tjoin_no_newline (gs : List (List Tok)) (h : ∀ g ∈ gs, Tok.newline ∉ g) : Tok.newline ∉ tjoin gs := by
+  induction gs with
+  | nil => simp [tjoin]
+  | cons g gs ih =>
+    cases gs with
+    | nil => simpa [tjoin] using h g (by simp)
+    | cons g' gs' =>
+      simp only [tjoin, List.mem_append, List.mem_cons, not_or]
+      exact ⟨h g (by simp), by simp, ih (fun x hx => h x (List.mem_cons_of_mem _ hx))⟩
+
+theorem stmtToks_no_newline (st : Stmt) (paren : Bool) : Tok.newline ∉ stmtToks st paren := by
+  have hb : Tok.newline ∉ bodyToks st :=
+    tjoin_no_newline _ (by intro g hg; obtain ⟨a, _, rfl⟩ := List.mem_map.mp hg; exact aliasToks_no_newline a)
+  have hh : Tok.newline ∉ headToks st.fromname := by
+    cases hf : st.fromname <;> simp [headToks]
+  cases paren <;> simp [stmtToks, hb, hh]
+
+theorem mapM_parseLine (E : List (List Tok)) (S : List Stmt)
+    (h : Forall2 (fun e s => parseLine e = some s) E S) : E.mapM parseLine = some S := by
+  induction h with
+  | nil => rfl
+  | cons h1 _ ih => rw [List.mapM_cons, h1, ih]; rfl
+
+theorem Forall2.append {α β} {R : α → β → Prop} {a a' : List α} {b b' : List β}
+    (h : Forall2 R a b) (h' : Forall2 R a' b') : Forall2 R (a ++ a') (b ++ b') := by
+  induction h with
+  | nil => exact h'
+  | cons h1 _ ih => exact .cons h1 ih
+
+theorem Forall2.map_left {α β} {R : α → β → Prop} (f : β → α) (l : List β) (h : ∀ s ∈ l, R (f s) s) :
+    Forall2 R (l.map f) l := by
+  induction l with
+  | nil => exact .nil
+  | cons a as ih => exact .cons (h a (by simp)) (ih (fun s hs => h s (List.mem_cons_of_mem _ hs)))
+
+theorem Forall2.flatMap {α β γ} {R : α → β → Prop} (l : List γ) (f : γ → List α) (g : γ → List β)
+    (h : ∀ x ∈ l, Forall2 R (f x) (g x)) : Forall2 R (l.flatMap f) (l.flatMap g) := by
+  induction l with
+  | nil => exact .nil
+  | cons a as ih =>
+    simp only [List.flatMap_cons]
+    exact Forall2.append (h a (by simp)) (ih (fun x hx => h x (List.mem_cons_of_mem _ hx)))
+
+/-- every statement a printed statement reads back as is accepted by the parser -/
+theorem emitted_parse (st : Stmt) (p : Params) (col : Option Nat) (fs : Nat)
+    (hv : validStmt st = true) (hn : noBadParen st p col fs = true) :
+    ∀ s ∈ emitted st p col fs, parseLine (stmtToks s (parenOf st p col fs)) = some s := by
+  intro s hs
+  unfold emitted at hs
+  by_cases hsp : splitPlain st p col fs = true
+  · rw [if_pos hsp] at hs
+    obtain ⟨a, ha, rfl⟩ := List.mem_map.mp hs
+    simp only [splitPlain, Bool.and_eq_true, decide_eq_true_eq] at hsp
+    obtain ⟨⟨hd, hnp⟩, _, hlen⟩ := hsp
+    have hnone : st.fromname = none := by
+      simp only [neverParen, Bool.or_eq_true, Option.isNone_iff_eq_none, decide_eq_true_eq] at hnp
+      rcases hnp with h | h
+      · exact h
+      · rw [h] at hlen; simp at hlen
+    have hpar : parenOf st p col fs = false := by simp [parenOf, hd, hnp]
+    rw [hpar, hnone]
+    apply parseLine_ok
+    · simp only [validStmt, hnone, Bool.and_eq_true, decide_eq_true_eq, List.all_eq_true] at hv
+      simp [validStmt, hv.2 a ha]
+    · intro h; cases h
+  · rw [if_neg hsp] at hs
+    simp at hs
+    subst hs
+    apply parseLine_ok _ _ hv
+    intro hpar
+    simp only [parenOf, Bool.and_eq_true, Bool.not_eq_true', Bool.and_eq_false_iff] at hpar
+    obtain ⟨hbr, hparen⟩ := hpar
+    simp only [noBadParen, Bool.or_eq_true, Bool.and_eq_true, Bool.not_eq_true'] at hn
+    have hstar : isStarStmt s = true → neverParen s = true := by
+      intro h
+      simp only [isStarStmt, decide_eq_true_eq] at h
+      simp [neverParen, h, aliasTok, star]
+    rcases hbr with hd | hnp
+    · rcases hn with (hd' | hn) | hn
+      · rw [hd] at hd'; cases hd'
+      · rw [hparen] at hn; cases hn
+      · exact hn
+    · simp only [neverParen, Bool.or_eq_false_iff] at hnp
+      refine ⟨by cases hf : s.fromname <;> simp_all, ?_⟩
+      cases hst : isStarStmt s
+      · rfl
+      · have := hstar hst
+        simp only [neverParen, Bool.or_eq_true] at this
+        rcases this with h | h
+        · rw [hnp.1] at h; cases h
+        · rw [hnp.2] at h; cases h
+
+/-- **C11_roundtrip_core** (both trees).  Whenever `pretty` returns a text for a set of imports and a
+    configuration, the statements of the set are valid Python names (`validStmt`) and no plain import or
+    star import is parenthesised (`noBadParen`; automatically true for the repaired tree), the reference
+    parser reads the text back as exactly the statements that were printed, in order. -/
+theorem C11_roundtrip_core (imps : List Imp) (p : Params) (text : Str)
+    (h : pretty imps p = .ok text) :
+    ∃ stmts col, getStatements imps.eraseDups p.sepFrom = .ok stmts ∧
+      importColumn stmts p (max 1 p.fromSpaces) = .ok col ∧
+      ((∀ st ∈ stmts, validStmt st = true) →
+       (∀ st ∈ stmts, noBadParen st p (stArgs p col st).1 (stArgs p col st).2 = true) →
+       parseBlock text = some (stmts.flatMap (readBack p col))) := by
+  unfold pretty at h
+  simp only [] at h
+  by_cases hc : conflicting imps.eraseDups = true
+  · simp [hc, bind, Except.bind, throw, throwThe, MonadExceptOf.throw] at h
+  · simp only [hc, Bool.false_eq_true, if_false] at h
+    obtain ⟨stmts, hst, h⟩ := (bind_eq_ok _ _ _).mp h
+    obtain ⟨col, hcol, h⟩ := (bind_eq_ok _ _ _).mp h
+    obtain ⟨texts, htx, h⟩ := (bind_eq_ok _ _ _).mp h
+    simp only [pure, Except.pure] at h
+    injection h with h
+    refine ⟨stmts, col, hst, hcol, ?_⟩
+    intro hvalid hnbp
+    have hF : ∀ st : Stmt, (if doAlign p st then st.pretty p col (max 1 p.fromSpaces) else st.pretty p none 1)
+        = st.pretty p (stArgs p col st).1 (stArgs p col st).2 := by
+      intro st
+      unfold stArgs
+      cases doAlign p st <;> simp
+    have hfa := mapM_ok_forall₂ _ _ _ htx
+    simp only [hF] at hfa
+    have hlex := lex_block stmts p col texts (fun st hs => validStmt_txtOK st (hvalid st hs)) hfa
+    -- the token lines
+    let E : List (List Tok) := stmts.flatMap fun st =>
+      (readBack p col st).map fun s => stmtToks s (parenOf st p (stArgs p col st).1 (stArgs p col st).2)
+    have hE : (stmts.map fun st => ((readBack p col st).map fun s =>
+          stmtToks s (parenOf st p (stArgs p col st).1 (stArgs p col st).2) ++ [Tok.newline]).flatten).flatten
+        = (E.map (· ++ [Tok.newline])).flatten := by
+      simp only [E, List.flatMap_def, List.map_flatten, List.map_map, List.flatten_flatten]
+      congr 1
+      apply List.map_congr_left
+      intro st _
+      simp [Function.comp, List.map_map]
+      rfl
+    unfold parseBlock
+    rw [← h, hlex, hE]
+    simp only [Option.bind, parseToks]
+    have hsp := splitTok_lines .newline E (by
+      intro l hl
+      simp only [E, List.mem_flatMap, List.mem_map] at hl
+      obtain ⟨st, _, s, _, rfl⟩ := hl
+      exact stmtToks_no_newline _ _)
+    rw [hsp]
+    simp only [List.getLast?_append, List.getLast?_singleton, Option.some_or, if_true,
+      List.dropLast_concat]
+    apply mapM_parseLine
+    apply Forall2.flatMap
+    intro st hst'
+    apply Forall2.map_left
+    exact emitted_parse st p _ _ (hvalid st hst') (hnbp st hst')
